@@ -7,9 +7,20 @@ import os
 from harness import common, oracle, progs, obligations
 
 OWN = {
+    'C01': ('C01',),
     'C03': ('C03',),
     'C09': ('C09',),
+    'C10': ('C10',),
+    'C11': ('C01',),
 }
+
+
+def collect(tier, n, tag=0):
+    """run n generated programs through all layout oracles; returns the raw per-program results"""
+    args = [(common.seed(), tag * 1000003 + i, tier) for i in range(n)]
+    ctx = mp.get_context('fork')
+    with ctx.Pool(min(16, os.cpu_count() or 4)) as pool:
+        return pool.map(one_case, args, chunksize=8)
 
 
 def far_program(rnd):
@@ -17,7 +28,7 @@ def far_program(rnd):
     nothing in the output but 2 MiB in the pessimistic layout"""
     L = progs.Ln
     lines = []
-    kind = rnd.randrange(4)
+    kind = rnd.randrange(6)
     n1 = rnd.choice([0, 1, 2, 511, 512, 513, 1022, 1023, 1024, 1025, 2046, 2047, 2048])
     nops = lambda n: [L('    addi x0 x0 0', 'instr', 'addi', [('r', 0), ('r', 0), ('i', 0)]) for _ in range(n)]
     if kind == 0:       # backward, pessimistically far
@@ -40,6 +51,17 @@ def far_program(rnd):
         lines += [L('    %s T' % nm, 'pjump', nm, [], 'T')]
         lines += [L('    align 0x200000', 'align', 'align', [0x200000])]
         lines += nops(rnd.choice([0, 1, 2, 3, 510, 511, 512, 513]))
+        lines += [L('T:', 'label', 'T')]
+        lines += nops(1)
+    elif kind in (4, 5):  # really far, with the low part of the offset exactly 0 / 0x800 / next to them
+        nm = rnd.choice(['call', 'tail'])
+        nb = rnd.randrange(1, 4)
+        lines += nops(nb)
+        lines += [L('    %s T' % nm, 'pjump', nm, [], 'T')]
+        lines += [L('    align 0x200000', 'align', 'align', [0x200000])]
+        # (the offset seen by the passes before resolve_aligns still contains the pessimistic 2 MiB, so
+        #  2040..2048 compressed nops put its low part on 0 at decision time)
+        lines += nops(rnd.choice([nb, nb, nb + 512, nb + 1024, nb + 511, nb + 513, nb + 1023, nb + 1025] + list(range(2038, 2050))))
         lines += [L('T:', 'label', 'T')]
         lines += nops(1)
     else:               # near jumps at the +-1 MiB edge are out of scope for quick; boundary of jal range
@@ -75,12 +97,19 @@ def one_case(args):
         for prop, msg in bad:
             out['problems'].append((prop, compress, msg))
         pend[compress] = oracle.ask_transfers(batch, lines, lay)
+        pend_m = pend.setdefault('meaning', {})
+        pend_m[compress] = oracle.ask_instr_meaning(batch, lines, lay)
         lays[compress] = lay
         # measured non-triviality: (number of transfers, labels moved by compression / shrinking)
         out['stats'][compress] = dict(bytes=len(res.bytes), labels=dict(res.labels))
     batch.run()
     for compress, p in pend.items():
+        if compress == 'meaning':
+            continue
         for prop, msg in oracle.eval_transfers(batch, p, lays[compress]):
+            out['problems'].append((prop, compress, msg))
+    for compress, p in pend.get('meaning', {}).items():
+        for prop, msg in oracle.eval_instr_meaning(batch, p):
             out['problems'].append((prop, compress, msg))
     kinds = sorted(set(l.kind for l in lines))
     out['nontrivial'] = (tuple(kinds), len(lines) // 8, tuple(sorted(out['status'].items())))
@@ -136,8 +165,10 @@ def check_program(asm, lines, compress):
     bad, lay = oracle.check_structure(lines, res, compress)
     batch = oracle.Batch()
     pend = oracle.ask_transfers(batch, lines, lay)
+    pm = oracle.ask_instr_meaning(batch, lines, lay)
     batch.run()
     bad += oracle.eval_transfers(batch, pend, lay)
+    bad += oracle.eval_instr_meaning(batch, pm)
     return 'ok', bad
 
 
